@@ -60,6 +60,7 @@ def run(ctx):
     freeze(ctx)
     pair(ctx)
     required_keys(ctx)
+    type_entry_rule(ctx)
     from .c19 import json_recursion
     json_recursion(ctx)
     namespace(ctx)
@@ -329,6 +330,29 @@ def logical_pair(ctx, rule):
         okv = okv and not [a for a in o.atoms if a[0] == 'call'] and not o.has_arith()
     ctx.ob(rule, 'logical/unknown-verbatim', okv, short_loc(rn.span) if rn else None,
            'the text of an unknown logicalType reaches UnknownLogicalType::new untransformed: %s' % okv)
+
+
+def type_entry_rule(ctx):
+    """every node's "type" (and with it its logicalType and the logical type's parameters) is written by the one writer
+    that emits both; the renderer's own arms never write a bare "type" entry (an arm that did would drop the logical
+    type of that kind of node)"""
+    f = ctx.f
+    kb = None
+    for b in f.body_list:
+        if fn_label(b) == '<' + SER + 'SerializeSchema as serde_core::ser::Serialize>::serialize' and 'SchemaKey>' in (b.j.get('self_ty') or ''):
+            kb = b
+    if kb is None:
+        return
+    direct = []
+    for bb, t in kb.calls():
+        if (t.get('callee') or '').endswith('SerializeMap::serialize_entry') and not kb.is_cleanup(bb):
+            ks = {x for x in origin(kb, t['args'][1]).consts() if isinstance(x, str)}
+            if ks & {'type', 'logicalType'}:
+                direct.append(sorted(ks))
+    writers = [c for c in f.closures_of(kb) if any((t.get('callee') or '').endswith('SerializeMap::serialize_entry') and
+                                                    'logicalType' in {x for x in origin(c, t['args'][1]).consts() if isinstance(x, str)} for bb, t in c.calls())]
+    ctx.ob('REQUIRED', 'type-only-with-logical-type', not direct and len(writers) == 1, short_loc(kb.span),
+           'bare "type"/"logicalType" entries written by the arms themselves: %s; closures writing type together with logicalType: %d' % (direct or 'none', len(writers)))
 
 
 def namespace(ctx):
